@@ -4,35 +4,59 @@
    <<message, byte index>>; the transport accepts bytes only while it has credit.  A publish is
    try_send: poll_ready (while |buf| >= HWM try to write; a transport that accepts nothing => the
    message is DROPPED, BufferFull), else encode the whole message into buf and flush best-effort.
-   Nothing moves between publishes.  Layer A, on the tap (bytes the transport accepted): always a
+   Between publishes a task of its own (backend.rs SubscriberQueue, fix for F29) moves what is
+   buffered: a publish that leaves bytes behind (or is refused) kicks it; it writes what the
+   transport takes and otherwise leaves its waker with the transport ("armed"), which wakes it when
+   credit returns.  A publish polls the transport with a no-op waker and thereby takes the
+   transport's wake-up away from the flusher - which is why it must kick again.  Layer A, on the tap (bytes the transport accepted): always a
    prefix of the concatenation of WHOLE messages forming an order-preserving subsequence of what
    was published; memory held <= HWM + one message; publish never waits; a transport with
-   unlimited credit misses nothing.  Scaled constants.  Dev: spec mutants.                        *)
+   unlimited credit misses nothing; whenever the transport would take bytes and the flusher has
+   nothing to do, nothing accepted is withheld (NoWithheld).  Scaled constants.  Dev: the pinned
+   tree ("no_flusher": bytes only move on a publish) and spec mutants ("kick_only_when_refused";
+   "kick_unless_armed": the optimistic "it is waiting already", wrong because the publish took the
+   wake-up; "encode_before_ready"; "clear_on_full").                                               *)
 EXTENDS Naturals, Sequences, FiniteSets, TLC
 CONSTANTS HWM, Sizes, MaxPub, MaxCredit, Dev
-VARIABLES buf, tap, credit, npub, accepted, dropped
-vars == <<buf, tap, credit, npub, accepted, dropped>>
+VARIABLES buf, tap, credit, npub, accepted, dropped,
+          kicked,    \* a kick is waiting in the flusher's channel
+          armed      \* the flusher's waker is the one the transport will wake when it takes bytes again
+vars == <<buf, tap, credit, npub, accepted, dropped, kicked, armed>>
 MaxSize == CHOOSE s \in Sizes : \A t \in Sizes : s >= t
-Init == buf = <<>> /\ tap = <<>> /\ credit = 0 /\ npub = 0 /\ accepted = <<>> /\ dropped = {}
+Init == buf = <<>> /\ tap = <<>> /\ credit = 0 /\ npub = 0 /\ accepted = <<>> /\ dropped = {} /\ kicked = FALSE /\ armed = FALSE
 Bytes(m, sz) == [i \in 1..sz |-> <<m, i, sz>>]
 Min(a, b) == IF a < b THEN a ELSE b
 \* write as much of b as the credit c allows; returns <<rest, written, credit left>>
 Write(b, c) == LET k == Min(Len(b), c) IN <<SubSeq(b, k + 1, Len(b)), SubSeq(b, 1, k), c - k>>
 \* the transport grants more credit / (credit 0 = stalled)
-Grant(k) == credit + k <= MaxCredit /\ credit' = credit + k /\ UNCHANGED <<buf, tap, npub, accepted, dropped>>
+Grant(k) == credit + k <= MaxCredit /\ credit' = credit + k /\ UNCHANGED <<buf, tap, npub, accepted, dropped, kicked, armed>>
+Kick(refused, left) == IF "no_flusher" \in Dev THEN FALSE
+                       ELSE IF "kick_only_when_refused" \in Dev THEN kicked \/ refused
+                       ELSE IF "kick_unless_armed" \in Dev THEN kicked \/ ((refused \/ left # <<>>) /\ ~armed)   \* "it is waiting already"
+                       ELSE kicked \/ refused \/ left # <<>>
 Publish(sz) ==
   /\ npub < MaxPub /\ npub' = npub + 1
   /\ LET m == npub + 1
          \* poll_ready: drain while at or above the high-water mark
          w1 == IF Len(buf) >= HWM THEN Write(buf, credit) ELSE <<buf, <<>>, credit>>
          ready == Len(w1[1]) < HWM \/ "encode_before_ready" \in Dev
-     IN IF ~ready
+     IN /\ armed' = FALSE                      \* the publish polled the transport with a no-op waker: the flusher's wake-up is gone
+        /\ IF ~ready
           THEN /\ buf' = (IF "clear_on_full" \in Dev THEN <<>> ELSE w1[1]) /\ tap' = tap \o w1[2] /\ credit' = w1[3]
                /\ dropped' = dropped \cup {m} /\ UNCHANGED accepted
+               /\ kicked' = Kick(TRUE, buf')
           ELSE LET w2 == Write(w1[1] \o Bytes(m, sz), w1[3]) IN
                /\ buf' = w2[1] /\ tap' = tap \o w1[2] \o w2[2] /\ credit' = w2[3]
                /\ accepted' = Append(accepted, <<m, sz>>) /\ UNCHANGED dropped
-Next == (\E sz \in Sizes : Publish(sz)) \/ \E k \in 1..MaxCredit : Grant(k)
+               /\ kicked' = Kick(FALSE, buf')
+\* the flusher runs: it was kicked, or the transport woke it
+FlushEnabled == kicked \/ (armed /\ credit > 0)
+Flush == /\ FlushEnabled
+         /\ LET w == Write(buf, credit) IN
+            /\ buf' = w[1] /\ tap' = tap \o w[2] /\ credit' = w[3]
+            /\ armed' = (w[1] # <<>>) /\ kicked' = FALSE
+         /\ UNCHANGED <<npub, accepted, dropped>>
+Next == (\E sz \in Sizes : Publish(sz)) \/ (\E k \in 1..MaxCredit : Grant(k)) \/ Flush
 Spec == Init /\ [][Next]_vars
 \* ---- layer A ----
 RECURSIVE Concat(_)
@@ -43,6 +67,8 @@ TapWellFormed == IsPrefix(tap, Concat(accepted))
 Bounded == Len(buf) < HWM + MaxSize
 \* nothing accepted is lost: tap + buf is exactly the accepted stream
 NothingLost == tap \o buf = Concat(accepted)
-\* a transport that always had credit left never caused a drop
-HealthyMissesNone == (credit > 0 /\ buf = <<>>) => TRUE
+\* nothing accepted is withheld: when the transport would take bytes and the flusher has nothing to do, the buffer is empty
+NoWithheld == (credit > 0 /\ ~FlushEnabled) => buf = <<>>
+\* reachability companions (must be violated): the flusher really gets armed, and a publish really takes its wake-up away
+Reach_Armed == ~armed
 =============================================================================
